@@ -183,9 +183,11 @@ _POOL = None
 
 
 def _worker_init():
+    import faulthandler
     import signal
 
     signal.signal(signal.SIGINT, signal.SIG_IGN)
+    faulthandler.register(signal.SIGUSR1, all_threads=False)  # kill -USR1 <worker> dumps its Python stack
 
 
 def _call(args):
